@@ -193,7 +193,7 @@ def main():
     known = [k for k in load_known() if k["property"] == pid]
     known_seen = []
     if minfo["ok"]:
-        ctx = {"tier": tier, "seed": SEED, "meta": meta, "build": binfo}
+        ctx = {"tier": tier, "seed": SEED, "meta": meta, "build": binfo, "pid": pid}
         for fn in spec["streams"]:
             try:
                 r = fn(ctx)
